@@ -1676,7 +1676,7 @@ impl Database {
         if has_toast {
             use crate::storage::toast::ToastPointer;
             for row_tuple in &mut rows_to_update {
-                let (_key, _old_value, updated_values, _old_row_values, old_toast_values) =
+                let (key, _old_value, updated_values, _old_row_values, old_toast_values) =
                     row_tuple;
 
                 for (_col_idx, old_val) in old_toast_values.iter() {
@@ -1694,17 +1694,12 @@ impl Database {
                     }
                 }
 
-                let pk_value = if let Some(pk_idx) = columns
-                    .iter()
-                    .position(|c| c.has_constraint(&Constraint::PrimaryKey))
-                {
-                    if let OwnedValue::Int(id) = &updated_values[pk_idx] {
-                        *id as u64
-                    } else {
-                        0
-                    }
-                } else {
-                    0
+                // The chunk id must be unique per row: use the row id of the row key, as
+                // INSERT does (the primary-key value, or 0 without one, collides with the
+                // chunk ids of other rows).
+                let row_id = match <[u8; 8]>::try_from(key.as_slice()) {
+                    Ok(k) => u64::from_be_bytes(k),
+                    Err(_) => bail!("unexpected row key length {} in UPDATE", key.len()),
                 };
 
                 for (col_idx, val) in updated_values.iter_mut().enumerate() {
@@ -1724,7 +1719,7 @@ impl Database {
                                 file_manager,
                                 schema_name,
                                 table_name,
-                                pk_value,
+                                row_id,
                                 col_idx as u16,
                                 &data,
                                 wal_enabled,
